@@ -743,6 +743,36 @@ def rule_r15(repo, run):
     run.floor(R, "option-reading helpers called with a node's own attribute", n, 2)
 
 
+def rule_r16(repo, run):
+    R = run.rule("C14.R16", "every group a template instantiation accepts (`format`, `options`) is applied to what is instantiated, "
+                            "for function templates as for class templates")
+    gm = repo.module("generate")
+    am = repo.module("ast")
+    ta = am.func("TemplateArgument.__init__")
+    fields = [a.targets[0].attr for a in ast.walk(ta) if isinstance(a, ast.Assign) and isinstance(a.targets[0], ast.Attribute)
+              and isinstance(a.value, ast.Name) and a.value.id in ("fmtdict", "options")]
+    if sorted(fields) != ["fmtdict", "options"]:
+        raise AnalysisError("C14.R16: TemplateArgument no longer keeps fmtdict and options (%s)" % fields)
+    n = 0
+    for q, fn in sorted(gm.functions().items()):
+        loops = [l for l in ast.walk(fn) if isinstance(l, ast.For) and "template_arguments" in ast.unparse(l.iter)]
+        for lp in loops:
+            v = [t.id for t in ast.walk(lp.target) if isinstance(t, ast.Name)]
+            v = [x for x in v if x.startswith("targ")]
+            if not v:
+                continue
+            if not any(isinstance(c, ast.Call) and (pyflow.call_name(c) or "").endswith(".clone") for c in ast.walk(lp)):
+                continue
+            for fld in fields:
+                n += 1
+                used = [x for x in ast.walk(lp) if isinstance(x, ast.Attribute) and x.attr == fld and pyflow.is_name(x.value, v[0])
+                        and isinstance(getattr(x, "_parent", None), ast.Call)]
+                run.check(R, "generate.%s:%s.%s" % (q, v[0], fld), bool(used),
+                          "the `%s` group of an instantiation is never applied in %s: it is accepted in the YAML file and has no "
+                          "effect" % ("format" if fld == "fmtdict" else "options", q), gm.loc(lp))
+    run.floor(R, "groups of template instantiations", n, 4)
+
+
 def run(repo, run, tier):
     rule_r1(repo, run)
     rule_r2(repo, run)
@@ -758,3 +788,4 @@ def run(repo, run, tier):
     rule_r12(repo, run)
     rule_r13(repo, run)
     rule_r15(repo, run)
+    rule_r16(repo, run)
